@@ -11,6 +11,7 @@ import (
 	"sync"
 	"time"
 
+	"github.com/valyala/bytebufferpool"
 	"github.com/valyala/fasthttp"
 	"verif.local/sim/simrt"
 )
@@ -38,6 +39,27 @@ type NetOptions struct {
 }
 
 var netOpt NetOptions
+
+func init() {
+	// byte buffers returned to a (simulated) pool: everything up to the capacity is overwritten
+	simrt.PoisonHook = func(v any) bool {
+		switch b := v.(type) {
+		case *bytebufferpool.ByteBuffer:
+			poison(b.B[:cap(b.B)])
+			return true
+		case *[]byte:
+			poison((*b)[:cap(*b)])
+			return true
+		}
+		return false
+	}
+}
+
+func poison(b []byte) {
+	for i := range b {
+		b[i] = 0xDB
+	}
+}
 
 // SetTransport selects the transport for connections created afterwards.
 func SetTransport(o NetOptions) { netOpt = o }
